@@ -119,12 +119,12 @@ def _decl(T, fname):
     stars = ""
     while T[0] in ("arr", "ptr"):
         if T[0] == "arr":
+            if stars:
+                raise ValueError("pointer to array not expressible")
             c = T[2]
             suffix = suffix + "[%s]" % ("" if c is None else "EOF" if c == "EOF" else render_expr(c[1]) if isinstance(c, list) else c)
             T = T[1]
         else:
-            if suffix:
-                raise ValueError("array of pointers-to-array not expressible")
             stars += "*"
             T = T[1]
     return T, stars + fname + suffix
@@ -622,4 +622,52 @@ def fields_eq(fields, lib, ref):
                 cs.append(lv.value == ref[fname])
         else:
             cs.append(value_eq(FT, lv, ref[fname]))
+    return And(*cs) if cs else True
+
+
+# ------------------------------------------------------------------------------------------ library vs library
+def lib_eq(T, a, b):
+    """Condition: two library values of type T are equal leaf by leaf (independent of the library's __eq__)."""
+    k = T[0]
+    if k in ("int", "leb", "ptr"):
+        return a == b
+    if k == "enum":
+        return a.value == b.value
+    if k == "char":
+        return bytes_eq(a, b)
+    if k == "wchar":
+        ua, ub = units_of(a), units_of(b)
+        if len(ua) != len(ub):
+            return False
+        return And(*[x == y for x, y in zip(ua, ub)]) if ua else True
+    if k == "float":
+        return float_bits_of(a, T[1]) == float_bits_of(b, T[1])
+    if k == "void":
+        return True
+    if k == "arr":
+        ET = T[1]
+        if ET[0] == "char":
+            return bytes_eq(a, b)
+        if ET[0] == "wchar":
+            return lib_eq(["wchar"], a, b)
+        if len(a) != len(b):
+            return False
+        cs = [lib_eq(ET, x, y) for x, y in zip(a, b)]
+        return And(*cs) if cs else True
+    if k in ("struct", "union"):
+        return lib_fields_eq(T[2], a, b)
+    raise ValueError(T)
+
+
+def lib_fields_eq(fields, a, b):
+    cs = []
+    for fname, FT, bits in fields:
+        if fname is None:
+            cs.append(lib_fields_eq(FT[2], a, b))
+            continue
+        x, y = getattr(a, fname), getattr(b, fname)
+        if bits:
+            cs.append((x.value == y.value) if FT[0] == "enum" else (x == y))
+        else:
+            cs.append(lib_eq(FT, x, y))
     return And(*cs) if cs else True
